@@ -191,6 +191,10 @@ func (z *Decimal) Add(x, y *Decimal) *Decimal {
 		z.acc = Exact
 		z.form = zero
 		z.neg = x.neg && y.neg // -0 + -0 == -0
+		if x.neg != y.neg && z.mode == ToNegativeInf {
+			// exact zero sum of zeros with opposite signs
+			z.neg = true
+		}
 		return z
 	}
 
@@ -1406,6 +1410,10 @@ func (z *Decimal) Sub(x, y *Decimal) *Decimal {
 		z.acc = Exact
 		z.form = zero
 		z.neg = x.neg && !y.neg // -0 - +0 == -0
+		if x.neg == y.neg && z.mode == ToNegativeInf {
+			// exact zero difference of zeros with like signs
+			z.neg = true
+		}
 		return z
 	}
 
